@@ -416,7 +416,7 @@ def evaluate__abs(self: XPathFunction, context: ta.ContextType = None) \
 
 ###
 # Aggregate functions
-@method(function('avg', nargs=1, sequence_types=('xs:anyAtomicType*', 'xs:anyAtomicType')))
+@method(function('avg', nargs=1, sequence_types=('xs:anyAtomicType*', 'xs:anyAtomicType?')))
 def evaluate__avg(self: XPathFunction, context: ta.ContextType = None) \
         -> ta.OneOrEmpty[AtomicType]:
     if self.context is not None:
